@@ -34,23 +34,45 @@ func (a aff) String() string {
 // compared with "first index = len-1, step -1, guard ⇔ index >= 0".
 func cleanupOrderRule(c *core.Ctx, r *core.Report) {
 	stack := handleFields(c).stack
-	isCleanupCall := func(call ssa.CallInstruction, t *ssa.Function) bool {
-		if t != nil || call.Common().IsInvoke() {
-			return false
+	// the element of the cleanup stack a dynamic call invokes: indexed in place, or handed out by an accessor of a
+	// wrapper type around the stack (`stack.at(i)()`); returns the indexing with the frame it sits in
+	cleanupElem := func(e an.Event) (*ssa.IndexAddr, *an.Frame) {
+		call := e.Call()
+		if call == nil || an.Callee(call) != nil || call.Common().IsInvoke() {
+			return nil, nil
 		}
-		ia, ok := an.Strip(call.Common().Value).(*ssa.IndexAddr)
+		rv := an.EventFV(e, call.Common().Value)
+		if _, isAcc := call.Common().Value.(*ssa.Call); isAcc {
+			rv = rv.Resolve(nil)
+		}
+		v := rv.V
+		if ld, ok := v.(*ssa.UnOp); ok && ld.Op == token.MUL {
+			v = ld.X
+		}
+		ia, ok := an.Strip(v).(*ssa.IndexAddr)
 		if !ok {
-			return false
+			return nil, nil
 		}
-		fld, _ := an.TerminalField(ia.X)
-		return an.SameField(fld, stack)
+		base := (an.FV{V: ia.X, F: rv.F}).Resolve(nil).V
+		if fld, _ := an.TerminalField(base); !an.SameField(fld, stack) {
+			if fld2, _ := an.TerminalField(ia.X); !an.SameField(fld2, stack) {
+				return nil, nil
+			}
+		}
+		return ia, rv.F
 	}
 	found := 0
 	for _, root := range c.AllFuncs {
 		if core.RelPkg(root) != "pkg/f1/testing" || root.Parent() != nil {
 			continue
 		}
-		for _, e := range an.FlatCalls(root, flatDepth, isCleanupCall) {
+		var evs []an.Event
+		an.Flatten(root, flatDepth, nil, func(e an.Event) {
+			if ia, _ := cleanupElem(e); ia != nil {
+				evs = append(evs, e)
+			}
+		})
+		for _, e := range evs {
 			// the root is the function whose own frame holds the loop
 			rootIn := e.Root()
 			if !an.InLoop(rootIn) {
@@ -59,8 +81,8 @@ func cleanupOrderRule(c *core.Ctx, r *core.Report) {
 			found++
 			key := "T.teardown#order"
 			pos := an.Pos(c, e.Instr)
-			ia := an.Strip(e.Call().Common().Value).(*ssa.IndexAddr)
-			idxV := an.EventFV(e, ia.Index).Resolve(nil)
+			ia, iaF := cleanupElem(e)
+			idxV := (an.FV{V: ia.Index, F: iaF}).Resolve(nil)
 			if idxV.F != nil && idxV.F.Parent != nil {
 				r.Violation(key, pos, "the index of the cleanup called (%s) is computed inside a helper, not from the loop of %s", an.D().Of(idxV.V), core.FuncName(root))
 				continue
@@ -155,6 +177,15 @@ func indexSweep(root *ssa.Function, idxV ssa.Value, rootIn ssa.Instruction, isSe
 		case *ssa.Call:
 			if an.IsBuiltinCall(x, "len") && isSeq(x.Call.Args[0]) {
 				return aff{1, 0, 0, true}
+			}
+			// a size accessor of a wrapper type around the sequence (`stack.size()` = len(stack))
+			if t := an.Callee(x); t != nil && core.InModule(t) && t.Blocks != nil {
+				rv := an.RootFV(root, x).Resolve(nil)
+				if lc, ok := rv.V.(*ssa.Call); ok && an.IsBuiltinCall(lc, "len") && rv.F != nil && rv.F.Parent != nil {
+					if isSeq((an.FV{V: lc.Call.Args[0], F: rv.F}).Resolve(nil).V) {
+						return aff{1, 0, 0, true}
+					}
+				}
 			}
 		case *ssa.BinOp:
 			a, b := eval(x.X, depth+1), eval(x.Y, depth+1)
